@@ -863,6 +863,13 @@ class Pass2(CompilePass):
         if not node.lvalue.type.is_coercible_to(node.rvalue.type):
             raise CompileError(EC.TYPE_MISMATCH, node=node)
 
+        if not node.lvalue.type.is_builtin or node.lvalue.type.is_array:
+            # the code generator can only store single values
+            raise CompileError(
+                EC.TYPE_MISMATCH,
+                'Assignment of whole records or arrays is not supported',
+                node=node)
+
         if node.lvalue.base_var in node.parent_routine.local_consts or \
            node.lvalue.base_var in self.compilation.global_consts:
             raise CompileError(EC.DUPLICATE_DEFINITION, node=node)
